@@ -69,6 +69,10 @@ fn to_fixed_le(v: &BigInt, n: usize) -> Vec<u8> {
     bytes.resize(n, fill);
     bytes
 }
+/// Two's-complement little-endian image of `v`, sign-extended to exactly `n` bytes.
+pub fn fixed_le(v: &BigInt, n: usize) -> Vec<u8> {
+    to_fixed_le(v, n)
+}
 /// Panics if the value does not fit (callers check `fits` first).
 pub fn big_to_dec(v: &BigInt) -> Decimal {
     assert!(DEC.fits(v));
@@ -214,4 +218,140 @@ pub fn iroot(x: &BigInt, n: u32) -> BigInt {
         }
     }
     lo
+}
+
+// ---------------------------------------------------------------------------------------------
+// Reference rounding (C25). Modes are numbered independently of the repository's enum; the
+// mapping to `RoundingMode` lives in the check.
+// ---------------------------------------------------------------------------------------------
+
+#[derive(Clone, Copy, Debug, PartialEq, Eq)]
+pub enum RefMode {
+    /// toward +infinity
+    Up,
+    /// toward -infinity
+    Down,
+    /// toward zero
+    ToZero,
+    /// away from zero
+    AwayFromZero,
+    /// to nearest, ties toward zero
+    HalfToZero,
+    /// to nearest, ties away from zero
+    HalfAwayFromZero,
+    /// to nearest, ties to the even multiple
+    HalfEven,
+}
+
+pub const REF_MODES: [RefMode; 7] = [
+    RefMode::Up,
+    RefMode::Down,
+    RefMode::ToZero,
+    RefMode::AwayFromZero,
+    RefMode::HalfToZero,
+    RefMode::HalfAwayFromZero,
+    RefMode::HalfEven,
+];
+
+/// The multiple of `step` (> 0) that `mode` prescribes for `v`, by the mathematical definition
+/// of each mode (no range check). Second component: `v` was an exact tie between two multiples.
+pub fn round_to_multiple(v: &BigInt, step: &BigInt, mode: RefMode) -> (BigInt, bool) {
+    assert!(step.is_positive());
+    let lo = v.div_floor(step) * step; // greatest multiple <= v
+    if &lo == v {
+        return (lo, false);
+    }
+    let hi = &lo + step; // least multiple > v
+    let positive = v.is_positive();
+    let toward_zero = if positive { lo.clone() } else { hi.clone() };
+    let away = if positive { hi.clone() } else { lo.clone() };
+    let twice: BigInt = (v - &lo) * 2u8;
+    let ord = twice.cmp(step);
+    let tie = ord == std::cmp::Ordering::Equal;
+    let nearest = |on_tie: BigInt| match ord {
+        std::cmp::Ordering::Less => lo.clone(),
+        std::cmp::Ordering::Greater => hi.clone(),
+        std::cmp::Ordering::Equal => on_tie,
+    };
+    let r = match mode {
+        RefMode::Up => hi.clone(),
+        RefMode::Down => lo.clone(),
+        RefMode::ToZero => toward_zero,
+        RefMode::AwayFromZero => away,
+        RefMode::HalfToZero => nearest(toward_zero),
+        RefMode::HalfAwayFromZero => nearest(away),
+        RefMode::HalfEven => {
+            let lo_even = (&lo / step).is_even();
+            nearest(if lo_even { lo.clone() } else { hi.clone() })
+        }
+    };
+    (r, tie)
+}
+
+/// `true` when `|v|` is within `limit / 256` of the type's MAX (DESIGN: "within 2^-8 of MAX").
+pub fn near_limit(v: &BigInt, k: Kind) -> bool {
+    let max = k.max();
+    let d = (v.abs() - &max).abs();
+    d <= (max >> 8u32)
+}
+
+/// A second operand chosen relative to `a` so that sums / products / quotients land on or next
+/// to the range limits and on exact / just-inexact results; falls back to an independent value.
+pub fn gen_partner(g: &mut Gen, k: Kind, a: &BigInt) -> BigInt {
+    let max = k.max();
+    let min = k.min();
+    let one = k.one();
+    let small = |g: &mut Gen| BigInt::from(g.range(-2, 2) as i64);
+    let v = match g.weighted(&[10, 3, 3, 3, 3, 2, 2]) {
+        0 => return gen_value(g, k),
+        1 => {
+            // a + b next to MAX / MIN
+            let lim = if g.bool() { max.clone() } else { min.clone() };
+            lim - a + small(g)
+        }
+        2 => {
+            // a * b next to MAX / MIN: b ≈ lim * one / a
+            if a.is_zero() {
+                return gen_value(g, k);
+            }
+            let lim = if g.bool() { max.clone() } else { min.clone() };
+            trunc_div(&(lim * &one), a) + small(g)
+        }
+        3 => {
+            // a / b next to MAX / MIN: b ≈ a * one / lim
+            let lim = if g.bool() { max.clone() } else { min.clone() };
+            trunc_div(&(a * &one), &lim) + small(g)
+        }
+        4 => {
+            // small divisors / multipliers (sub-unit and whole)
+            let c: [i64; 10] = [1, -1, 2, 3, -3, 7, 10, 1000, -1000, 999_999_999];
+            let v = BigInt::from(*g.pick(&c));
+            if g.bool() {
+                v * &one
+            } else {
+                v
+            }
+        }
+        5 => {
+            // an exact divisor / multiple of a
+            let d = BigInt::from(*g.pick(&[1i64, 2, 4, 5, 8, 10, 16, 25, 100, 1_000_000]));
+            if g.bool() {
+                trunc_div(a, &d)
+            } else {
+                a * d
+            }
+        }
+        _ => {
+            // same magnitude, either sign, ± small
+            let s = if g.bool() { a.clone() } else { -a.clone() };
+            s + small(g)
+        }
+    };
+    if v > max {
+        max
+    } else if v < min {
+        min
+    } else {
+        v
+    }
 }
